@@ -261,6 +261,21 @@ func runC16(o *Out) {
 			m[i] = " \nx1\t\r"[o.Rng.Intn(6)]
 			blocks = append(blocks, blk{"mutated", n, m})
 		}
+		// a residue column holding a byte that is no printable ASCII character
+		// (DEL, Latin-1, a UTF-8 lead byte, NUL, a control character) or an unusual
+		// printable one: both paths draw the same line
+		for t, c := range []byte{0x7f, 0x80, 0xe9, 0xff, 0x00, 0x1f, '~', '!'} {
+			if n == 0 {
+				break
+			}
+			m := append([]byte(nil), good...)
+			col := (t*7 + n) % n // residue index
+			pos := (col/60)*(10+66) + 10 + (col%60) + (col%60)/10
+			if pos < len(m) && m[pos] != ' ' && m[pos] != '\n' {
+				m[pos] = c
+				blocks = append(blocks, blk{"odd-residue-byte", n, m})
+			}
+		}
 		// trailing garbage on the last line, missing newline, extra group
 		if len(good) > 0 {
 			g := append(append([]byte(nil), good[:len(good)-1]...), []byte(" extra\n")...)
